@@ -321,8 +321,11 @@ def _apply_unit(repo: str, header: str, body_lines: List[str], tpl_name: str) ->
         if kind in ("rw", "rw?"):
             whole = sig + "\x01" + body
             whole2, n = rt.rewrite(whole, arg, lines[0])
-            if n == 0 and kind == "rw":
+            if n == 0 and kind == "rw" and os.environ.get("VERIF_STRICT_RW"):
+                # self-test mode: on the tree a template was written for, every `rw:` rule must fire
                 raise ExtractError("%s: rewrite pattern not found in %s (%s): %s" % (uid, info.item, info.file, arg))
+            # otherwise a rule that does not fire is recorded (fired = 0) and skipped: the construct it translates is
+            # not there; if it is there in another form the verifier rejects it (undecided), it is never passed silently
             info.rewrites.append((arg + " ==> " + lines[0], n))
             if "\x01" not in whole2:
                 raise ExtractError("%s: rewrite crossed signature/body boundary: %s" % (uid, arg))
